@@ -41,6 +41,7 @@ fn nums_for(r: &mut Rng, tag: &str, style: u64) -> (Vec<f64>, String) {
         3 => "mixed",
         5 => "tiny",
         6 => "huge",
+        7 => "near-max",
         _ => "sparse",
     };
     for _ in 0..n {
@@ -51,6 +52,12 @@ fn nums_for(r: &mut Rng, tag: &str, style: u64) -> (Vec<f64>, String) {
             3 => moderate(r).0,
             5 => moderate(r).0 * (2.0f64).powi(-(r.range(50, 90) as i32)),
             6 => moderate(r).0 * (2.0f64).powi(r.range(40, 80) as i32),
+            7 => {
+                // within a factor 16 of f64::MAX: products by 2..9 overflow or not depending on the lane
+                let m = 1.0 + r.unit();
+                let x = m * (2.0f64).powi(r.range(1019, 1023) as i32);
+                if r.chance(1, 2) { -x } else { x }
+            }
             _ => {
                 if r.chance(1, 2) {
                     0.0
@@ -295,7 +302,7 @@ pub fn gen_case(campaign: &str, r: &mut Rng) -> Case {
                 "translate" => *r.pick(ALL_TAGS),
                 _ => *r.pick(INTEG_TAGS),
             };
-            let p = piece(r, tag);
+            let p = if op == "deriv" && r.chance(1, 10) { nums_for(r, tag, 7).0 } else { piece(r, tag) };
             let mut c = Case::new(op, tag).set("p", Val::L(p.clone())).cls(&format!("{op}:{tag}"));
             if op == "integral" {
                 let kx = if is_logish(tag) { pos_arg(r).0 } else if r.chance(1, 6) { *r.pick(&[0.0, -0.0, 1.0]) } else { moderate(r).0 };
@@ -339,7 +346,10 @@ pub fn gen_case(campaign: &str, r: &mut Rng) -> Case {
                     }
                     c = c.set("q", Val::L(q));
                 }
-                "translate" => c = c.set("v", Val::F(moderate(r).0)),
+                "translate" => {
+                    let v = if r.chance(1, 4) { moderate(r).0 * (2.0f64).powi(-(r.range(50, 90) as i32)) } else { moderate(r).0 };
+                    c = c.set("v", Val::F(v))
+                }
                 _ => {}
             }
             let mut c = c.cls(&cl);
@@ -365,7 +375,8 @@ pub fn gen_case(campaign: &str, r: &mut Rng) -> Case {
                 c = c.set("s", Val::F(moderate(r).0));
             }
             if op.contains("translate") {
-                c = c.set("v", Val::F(moderate(r).0));
+                let v = if r.chance(1, 4) { moderate(r).0 * (2.0f64).powi(-(r.range(50, 90) as i32)) } else { moderate(r).0 };
+                c = c.set("v", Val::F(v));
             }
             let mut c = c.cls(&format!("{op}:{tag}:n={}", n.min(3)));
             c.nontrivial = n >= 1;
